@@ -11,6 +11,8 @@ and optionally
     label(tx) -> str      class of the exported line for the per-action coverage table
 """
 import importlib
+import os
+import sys
 import multiprocessing as mp
 import shutil
 import tempfile
@@ -23,6 +25,8 @@ _W = {}
 
 
 def _init(worker, opts):
+    # the library prints diagnostics from some refused calls; workers report through return values only
+    sys.stdout = open(os.devnull, "w")
     _W["mod"] = importlib.import_module(worker)
     _W["mod"].init(opts)
 
